@@ -32,6 +32,26 @@ def build_msg(spec, idx):
         want = spec["target_len"] - base_len - 8
         if want >= 1:
             spec = dict(spec, target_len=None, pad=want)
+    if spec.get("shape") and spec["kind"] in ("app_req", "app_ans"):
+        # legal but unusual shapes: T (retransmission) / E (error) header bits, P clear, AVPs in an unusual
+        # order, the same AVP twice, very many tiny AVPs with data lengths 0..3 (every padding case)
+        sh = spec["shape"]
+        m = build_msg(dict(spec, shape=None), idx)
+        if sh.get("tbit") and spec["kind"] == "app_req":
+            m["flags"] |= 0x10
+        if sh.get("ebit") and spec["kind"] == "app_ans":
+            m["flags"] |= 0x20
+        if sh.get("nop"):
+            m["flags"] &= ~0x40
+        avps = list(m["avps"])
+        if sh.get("dup"):
+            avps.append(avps[sh["dup"] % len(avps)])
+        for j in range(sh.get("small", 0)):
+            avps.append((TAG + 2 + (j % 5), 0, None, bytes((idx + j + i) & 0xFF for i in range(j % 4))))
+        if sh.get("shuffle") is not None:
+            random.Random(sh["shuffle"]).shuffle(avps)
+        m["avps"] = avps
+        return m
     k = spec["kind"]
     hbh = 0x20000000 + idx
     e2e = 0x30000000 + idx
@@ -168,6 +188,12 @@ class C04(Check):
         # later additions draw from a generator of their own (the stream above stays what it was)
         rng2 = random.Random(rng.getrandbits(48))
         scn["clock_jumps"] = draw_clock_jumps(rng2, span=0.3, p=0.15)
+        if not special and rng2.random() < 0.3:
+            for m_ in scn["msgs"]:
+                if m_["kind"] in ("app_req", "app_ans") and rng2.random() < 0.5:
+                    m_["shape"] = {"tbit": rng2.random() < 0.3, "ebit": rng2.random() < 0.3, "nop": rng2.random() < 0.3,
+                                   "dup": rng2.choice([None, None, 0, 1, 2, 3]), "small": rng2.choice([0, 0, 3, 40, 150]),
+                                   "shuffle": rng2.choice([None, rng2.getrandbits(20)])}
         if not special and rng2.random() < 0.25:
             # size boundaries: one or two messages are exactly 2^k (or 2^k +- 4) bytes long
             for _ in range(rng2.choice([1, 2])):
@@ -279,7 +305,8 @@ class C04(Check):
         return sorted(set(r.randrange(1, total) for _ in range(k)))
 
     def run(self, scn, tape_in=None):
-        w = WorldA(scn, tape_in)
+        # (parsing a burst of messages with hundreds of AVPs is a long pure computation: lift the hang cap)
+        w = WorldA(dict(scn, pure_line_cap=4_000_000), tape_in)
         sim = w.sim
         violations = []
         tick = w.world.knobs["STATE_MACHINE_TICKER"]
